@@ -205,6 +205,9 @@ def t_r3(p: Project, rep: Report):
                         if top is not None and not whole:
                             rep.check("T-R3", f"{name}.{famname}[{key}]:return#{i}", False, f"{h.qualname}: a path returns {rtxt[:80]}: the value is altered AFTER the length check (e.g. clipped to the limit), so what is returned is not the value that was given", tloc(p, h.fn))
                             continue
+                    if ok and name == "Integer" and "float(" in rtxt:
+                        rep.check("T-R3", f"{name}.{famname}[{key}]:return#{i}", False, f"{h.qualname}: a path returns {rtxt[:80]}: the text goes through float(), which holds 53 bits - an integer beyond 2**53 (unbounded Integer fields admit them) comes back as a neighbouring number, silently", tloc(p, h.fn))
+                        continue
                     rep.check("T-R3", f"{name}.{famname}[{key}]:return#{i}", ok, f"{h.qualname}: a path returns {rtxt[:80]}, which did not pass enforce_length" if not ok else "", tloc(p, h.fn))
     ci = scal["OneOf"]
     for famname in ("convert", "unconvert"):
